@@ -307,6 +307,8 @@ impl ForwardedStreamSink {
 
         if (100..200).contains(&response.status.as_u16()) {
             state.respond.send_intermediate_response(response)?;
+            // what follows an interim response is still to be parsed: not a full sink
+            self.fake_unsent = !tail.is_empty();
             return Ok(tail);
         }
 
